@@ -45,7 +45,7 @@ func (e *enum) Run(i int64, r *vf.Rec) {
 	y, m, d := t0.Date()
 	tick := make([]float64, n)
 	res := mrun.RunCell("DateGenerator", []float64{float64(d), float64(m), float64(y)}, [][]float64{tick}, n, nil)
-	r.State(uint64(t0.Unix() / 86400 + 1000000))
+	r.State(uint64(t0.Unix()/86400 + 1000000))
 	r.MarkNontrivial()
 	r.Count("steps_checked", int64(n))
 	boundary := false
